@@ -627,6 +627,12 @@ where
                 set_current_route_locale(locale);
                 StaticSegment(locale.as_str())
                     .test(path)
+                    // `StaticSegment` stops at the end of its own text: `/entries` starts with `en`,
+                    // but the prefix is the locale only when it is the whole first segment.
+                    .filter(|partial_path_match| {
+                        let remaining = partial_path_match.remaining();
+                        remaining.is_empty() || remaining.starts_with('/')
+                    })
                     .and_then(|partial_path_match| {
                         let remaining = partial_path_match.remaining();
                         let matched = partial_path_match.matched();
